@@ -18,7 +18,10 @@ impl StateMachine<'_> {
 
     #[inline]
     fn test_submodule_short_line(&self) -> bool {
-        matches!(self.state, State::HunkHeader(_, _, _, _))
+        // The "-Subproject commit" line of a removed submodule has no "+Subproject commit" line
+        // to be paired with (the new side of its hunk is empty): it is an ordinary hunk line.
+        matches!(&self.state, State::HunkHeader(_, parsed_hunk_header, _, _)
+            if !parsed_hunk_header.new_side_is_empty())
             && self.line.starts_with("-Subproject commit ")
             || matches!(self.state, State::SubmoduleShort(_))
                 && self.line.starts_with("+Subproject commit ")
